@@ -230,6 +230,8 @@ int main(int argc, char** argv)
 		for(int h = 0; h < hlen; h++)
 		{
 			Job J = random_job(g, -1, true);
+			if(h == 0 && K.method == "Miser" && c % 2 == 1)
+				J = random_job(g, 0, true);	  // a constant integrand: Miser finds no variation anywhere and takes its fall-back split at every level
 			if(g.coin(0.5) || h == 0)
 				J.method = K.method;	 // at least one earlier call of the same method (shared function-local state)
 			H.push_back(J);
